@@ -73,6 +73,14 @@ CLAIMS = {
         "THREAD_SUBPROCS=True, non-interactive, non-tty terminal, <= 3 stages and <= 2 redirects per stage, well-behaved stages; no ordering between stdout and stderr bytes in one sink; merge-operator combinations may follow any of three documented readings.",
         "DESIGN.md §3 C07",
     ),
+    "C10": (
+        "model_checking",
+        "exhaustive round trip of every registered variable over a validator-filtered value pool + explicit-state BFS over env histories with the real prep_env_subproc compared with a from-scratch detype",
+        "seqx",
+        "Part A converts every value of a 50-value pool that a registered variable's own validator accepts to its string form and back, for all ~160 registered variables and ENSURERS types, and builds a nested Env from the detyped mapping. Part B is a breadth-first search (depth 5 quick / 7 thorough) over set / delete / in-place mutation through a fresh read and through a held reference / swap / overlay / DELETE_VAR / UPDATE_OS_ENVIRON toggles / launch with per-command prefixes, where launch is the real SubprocSpec.prep_env_subproc; every mapping handed to a child is compared with a from-scratch detype of the reference's logical values (so the cache is never observable) and sampled against a real `env -0` child.",
+        "Variables with an accept-anything validator or without converter/detyper have no defined value domain and are skipped; LC_* skipped; PATHEXT compared case-insensitively and abs_path after abspath (normalisation is the type); defaults are not exported.",
+        "DESIGN.md §3 C10",
+    ),
 }
 
 NOT_YET = "check not built yet (work in progress in this round; see DESIGN.md §3 for the planned exploration)"
@@ -80,7 +88,7 @@ NOT_YET = "check not built yet (work in progress in this round; see DESIGN.md §
 ENGINES = [
     {"name": "crashx", "path": "xv/crashx.py", "serves_properties": ["C13"], "kind_free_text": "records the file-operation log of a write history through shims bound into the module under test, then enumerates every crash point, torn write and failing call in forked children; strace syscall injection for libsqlite3"},
     {"name": "pysched", "path": "xv/pysched.py", "serves_properties": ["C11", "C12"], "kind_free_text": "stateless preemption-bounded exploration of real CPython threads: baton scheduler, line-event scheduling points in named functions, cooperative Lock/Condition/sleep/join shims, DFS over choice prefixes with replay-divergence detection"},
-    {"name": "seqx", "path": "xv/seqx.py", "serves_properties": ["C11", "C12", "C16", "C20"], "kind_free_text": "explicit-state breadth-first search whose transitions call the real entry points on a freshly replayed implementation; canonical state hashing; lock-step reference"},
+    {"name": "seqx", "path": "xv/seqx.py", "serves_properties": ["C10", "C11", "C12", "C16", "C20"], "kind_free_text": "explicit-state breadth-first search whose transitions call the real entry points on a freshly replayed implementation; canonical state hashing; lock-step reference"},
     {"name": "gramx", "path": "xv/", "serves_properties": ["C04", "C07", "C15"], "kind_free_text": "bounded-exhaustive enumeration of structured inputs run through the real implementation, compared with a reference"},
 ]
 
